@@ -38,6 +38,8 @@ func runC08(c *Ctx) {
 	c.Borrow(runC09, "C09-R1", "C08-R2", func(k string) bool { return strings.HasPrefix(k, "tx-site-locked") })
 	// ---------- R1 ----------
 	checkIndexMirrorsOnlyAtCommit(c, "C08-R1", nil)
+	// an account created in a transaction that is then rolled back (the import dry run) is forgotten on every path
+	checkInvalidationAlwaysEvicts(c, "C08-R1")
 
 	// ---------- R2 ----------
 	checkMirrorAfterDisk(c, "C08-R2", addrMgrMirrors)
@@ -146,6 +148,7 @@ func runC08(c *Ctx) {
 	checkUnlockLoopsComplete(c, "C08-R2") // the cached account keys after Lock+Unlock are those a restart would load
 	checkImportAddressIDAgreesWithConstructor(c, "C08-R3")
 	checkImportPathsAgreeOnSchemaField(c, "C08-R3")
+	checkCompressionFlagIsTheWifs(c, "C08-R3")
 	checkDerivationPathLiterals(c, "C08-R3")
 	checkRowRewrites(c, "C08-R4")
 	c.Advisory("Manager.SetBirthday stores the in-memory birthday before writing it (outside the property's query list)")
